@@ -98,10 +98,14 @@ def depthList : List Loc → Nat
   | x :: xs => max (depth x) (depthList xs)
 end
 
-/-- parents that separate positions: `digitParents n` has one word per base-4 digit of the
-positions 1..n, letter = that digit as A/C/G/T; two locations that read the same letters on all of
-them (and complement is a bijection on A/C/G/T) select the same positions in the same order and
-strands.  So "denotes the same bases" is judged on every parent that matters, not on one. -/
+/-- probe parents that separate strands and positions.  `AAAA…`: a letter read on the reverse strand
+shows as `T`, so the strand of every letter of a reading is read off first.  One word per base-4 digit
+of the positions 1..n (letter = that digit as A/C/G/T): given the strand, complement is a bijection on the
+letters, so the digits — hence the position — of every letter follow.  Two locations with the same readings
+on all of these select the same positions, in the same order, on the same strands.  (Without the constant
+word the digit words alone are blind to "other strand, positions mirrored": complement maps digit d to 3−d.)
+A third, aperiodic and not self-complementary word (C at the squares, A elsewhere) is added as an
+independent check.  So "denotes the same bases" is judged on every parent that matters, not on one. -/
 def digitParents (n : Nat) : List Str :=
   let letters := #['A', 'C', 'G', 'T']
   let rec go (k fuel : Nat) (pow : Nat) : List Str :=
@@ -110,7 +114,9 @@ def digitParents (n : Nat) : List Str :=
     | fuel + 1 =>
       let w := (List.range n).map fun i => letters[((i + 1) / pow) % 4]!
       if pow * 4 > n then [w] else w :: go (k + 1) fuel (pow * 4)
-  go 0 12 1
+  List.replicate n 'A' ::
+    ((List.range n).map fun i => if Nat.sqrt (i + 1) * Nat.sqrt (i + 1) == i + 1 then 'C' else 'A') ::
+    go 0 12 1
 
 /-- same reading on every probe parent (`want` = the readings of the case's tree) and same partial ends -/
 def sameLoc (l' : Loc) (parents : List Str) (want : List Str) (wantEnds : List (Bool × Bool)) : Bool :=
@@ -228,7 +234,12 @@ def render (f : List String) : List String :=
 
 def judgeLoc (parent : String) (trees out : List String) : Verdict :=
   match out with
-  | "ok" :: rs =>
+  | "ok" :: "single" :: _ =>
+    -- the harness could not parse the batch's texts as the features of ONE record (genbank.Parse panicked,
+    -- lost a feature, or glued a location text differently) and fell back to one record per text
+    { corr := false, judge := some false, cls := "FAILR/record-path",
+      detail := "the texts of this batch, as features of one GenBank record, were not parsed to the texts sent" }
+  | "ok" :: "together" :: rs =>
     if rs.length != (1 + nVariants) * trees.length then { corr := false, judge := some false, cls := "bad-reply", detail := "reply length" } else
     let ps := parent.toList
     let probes := digitParents ps.length
